@@ -215,7 +215,9 @@ func (w *world) getBlockHash(height int64) (*chainhash.Hash, error) {
 		w.scanActive = false
 		return nil, errHash
 	}
-	w.log = append(w.log, fmt.Sprintf("cb hash %d => ok", height))
+	if k <= 400 {
+		w.log = append(w.log, fmt.Sprintf("cb hash %d => ok", height))
+	}
 	h := w.hashes[height]
 	return &h, nil
 }
@@ -255,7 +257,9 @@ func (w *world) filterMatches(watch [][]byte, bh *chainhash.Hash) (bool, error) 
 			}
 		}
 	}
-	w.log = append(w.log, fmt.Sprintf("cb filter %d %s => %d", h, ws, b2i(match)))
+	if w.k <= 400 {
+		w.log = append(w.log, fmt.Sprintf("cb filter %d %s => %d", h, ws, b2i(match)))
+	}
 	return match, nil
 }
 
@@ -275,7 +279,9 @@ func (w *world) getBlock(bh chainhash.Hash, _ ...neutrino.QueryOption) (*btcutil
 		w.scanActive = false
 		return nil, errBlock
 	}
-	w.log = append(w.log, fmt.Sprintf("cb block %d => ok", h))
+	if w.k <= 400 {
+		w.log = append(w.log, fmt.Sprintf("cb block %d => ok", h))
+	}
 	return w.blocks[h], nil
 }
 
@@ -326,7 +332,9 @@ func (w *world) result(l *liveReq, wd time.Duration) (s string) {
 			return w.showResult(rep, err)
 		}
 		w.mu.Lock()
-		spinning := w.bestRun > 2000
+		// k > 400: no generated case needs that many GetBlockHash calls (at most 9 blocks, a handful of
+		// batches); the scanner is rescanning without ever answering (livelock)
+		spinning := w.bestRun > 2000 || w.k > 400
 		w.mu.Unlock()
 		if spinning {
 			return "HANG"
@@ -409,7 +417,7 @@ func runCase(t *tr.W, c *caseSpec) (hangs int) {
 				todo = append(todo, l)
 			}
 		}
-		active := w.scanActive
+		active := w.scanActive && w.k <= 400
 		fired := w.stopFired
 		w.mu.Unlock()
 		if fired {
@@ -473,7 +481,13 @@ func runCase(t *tr.W, c *caseSpec) (hangs int) {
 	for _, l := range w.live {
 		anyHang = anyHang || l.obs == "HANG"
 	}
-	if !(anyHang || fired || c.stopAtEnd) {
+	w.mu.Lock()
+	runaway := w.k > 400
+	w.mu.Unlock()
+	if runaway {
+		t.Hit("runaway")
+	}
+	if !(anyHang || fired || c.stopAtEnd || runaway) {
 		return w.slowHangs
 	}
 	done := make(chan struct{})
@@ -650,7 +664,20 @@ func init() {
 			n *= 8
 			hangBudget = 40
 		}
+		deadline := time.Now().Add(40 * time.Second)
+		if thorough {
+			deadline = time.Now().Add(12 * time.Minute)
+		}
+		if os.Getenv("VERIF_SEARCH") != "" {
+			// search for a failing input after a broken tie: 10x the quick budget, at most 90 s
+			n = 1200 * tr.EnvInt("VERIF_BUDGET", 1)
+			deadline = time.Now().Add(90 * time.Second)
+		}
 		for i := 0; i < n; i++ {
+			if time.Now().After(deadline) {
+				t.Line("# generation stopped after %d random cases: time budget used up", i)
+				break
+			}
 			c := gen(r, hangBudget > 0)
 			c.stopAtEnd = i%40 == 0
 			hangBudget -= runCase(t, c)
